@@ -189,7 +189,7 @@ fn asm(req: &Value) -> R {
     let a = s.to_asm_string();
     let x = s.to_extended_asm_string();
     let rt = sub(|| Script::from_asm_string(&a), |s2| h(&s2.to_bytes()));
-    let mut o = json!({"bytes": h(&s.to_bytes()), "rt": rt});
+    let mut o = json!({"bytes": h(&s.to_bytes()), "rt": rt, "impl_eq": s.to_asm_string_impl(false) == a && s.to_asm_string_impl(true) == x});
     if !bo(req, "no_text") {
         o["asm"] = json!(a);
         o["xasm"] = json!(x);
@@ -223,17 +223,29 @@ fn matches_json(m: Vec<(MatchDataTypes, Vec<u8>)>) -> Value {
 
 fn template(req: &Value) -> R {
     let script = Script::from_bytes(&hx(req, "script")?).map_err(|e| drv(format!("script parse: {}", e)))?;
+    let vi = bo(req, "via_impl");
     let tmpl = match st_opt(req, "tmpl") {
+        Some(t) if vi => ScriptTemplate::from_asm_string_impl(t),
         Some(t) => ScriptTemplate::from_asm_string(t),
         None => {
             let src = Script::from_bytes(&hx(req, "tmpl_script")?).map_err(|e| drv(format!("tmpl_script parse: {}", e)))?;
-            ScriptTemplate::from_script(&src)
+            if vi {
+                ScriptTemplate::from_script_impl(&src)
+            } else {
+                ScriptTemplate::from_script(&src)
+            }
         }
     };
     let tmpl = match tmpl {
         Ok(t) => t,
         Err(e) => return Ok(json!({ "tmpl_err": e.to_string() })),
     };
+    if vi {
+        return Ok(json!({
+            "matches": sub(|| script.match_impl(&tmpl), matches_json),
+            "is_match": sub0(|| script.test_impl(&tmpl), |b| json!(b)),
+        }));
+    }
     Ok(json!({
         "matches": sub(|| script.matches(&tmpl), matches_json),
         "is_match": sub0(|| script.is_match(&tmpl), |b| json!(b)),
